@@ -63,7 +63,37 @@ def apply_mutation(path, m):
             data[m["pos"]] = m["val"]
     elif kind == "trunc":
         data = data[: m["len"]]
+    elif kind == "zero":
+        # a zeroed range (a lost page, a hole punched by the file system)
+        before = bytes(data[m["pos"]:m["pos"] + m["len"]])
+        for i in range(m["pos"], min(len(data), m["pos"] + m["len"])):
+            data[i] = 0
+        if bytes(data[m["pos"]:m["pos"] + m["len"]]) == before:
+            data[m["pos"]] ^= 0xFF   # the range was all zeros already: alter one byte so that something changes
+    elif kind == "swap":
+        # a misdirected write: the bytes of block j are replaced by the (self-consistent) bytes of block i
+        a, b = m["src"], m["dst"]
+        data[b[0]:b[1]] = data[a[0]:a[1]]
     open(path, "wb").write(bytes(data))
+
+
+def block_bounds(path):
+    """[(start, end)] of the blocks of a .col file, recovered from the block trailers
+    (block_type i32, checksum_type i32, crc32 u64 over everything before checksum_type)."""
+    import struct
+    import zlib
+    data = open(path, "rb").read()
+    out, start = [], 0
+    while start < len(data):
+        for end in range(start + 16, len(data) + 1):
+            if data[end - 12:end - 8] == b"\x00\x00\x00\x01" and \
+               struct.unpack(">Q", data[end - 8:end])[0] == (zlib.crc32(data[start:end - 12]) & 0xFFFFFFFF):
+                out.append((start, end))
+                start = end
+                break
+        else:
+            break
+    return out
 
 
 def run_mutation(args):
@@ -104,7 +134,7 @@ def run_mutation(args):
                             got = ms(r["rows"])
                             diff = [x for x in got if x not in ref[t]][:2]
                             res["violations"].append(dict(
-                                signature=f"altered-rows-returned:{ftype(m)}:{phase if phase in ('first', 'after-compaction') else 'repeated-read'}",
+                                signature=f"altered-rows-returned:{ftype(m)}{mclass(m)}:{phase if phase in ('first', 'after-compaction') else 'repeated-read'}",
                                 what=f"{desc(m)}: {q} ({phase}) returned Ok with {len(got)} rows (pristine {len(ref[t])}); altered/unknown rows {diff}"))
                             break
                         elif t == target:
@@ -131,16 +161,54 @@ def ftype(m):
     return m["file"].rsplit(".", 1)[1]
 
 
+def mclass(m):
+    """bit flips, byte overwrites and truncations share the historical signatures; the structured faults have their own"""
+    return "" if m["kind"] in ("bit", "byte", "trunc") else ":" + m["kind"]
+
+
 def desc(m):
     if m["kind"] == "bit":
         return f"flip bit {m['bit']} of byte {m['pos']} of {m['file']}"
     if m["kind"] == "byte":
         return f"overwrite byte {m['pos']} of {m['file']} with {m['val']:#x}"
+    if m["kind"] == "zero":
+        return f"zero bytes {m['pos']}..{m['pos'] + m['len']} of {m['file']}"
+    if m["kind"] == "swap":
+        return f"overwrite block at {m['dst'][0]}..{m['dst'][1]} of {m['file']} with the block at {m['src'][0]}..{m['src'][1]}"
     return f"truncate {m['file']} to {m['len']} bytes"
 
 
-def gen_mutations(rng, files, tier):
+def structured_mutations(rng, files, base, tier):
+    """zeroed ranges and misdirected block writes, placed with knowledge of the block boundaries"""
     muts = []
+    for f, size in files:
+        if not f.endswith(".col"):
+            if tier == "thorough":
+                for pos in range(0, size, 8):
+                    muts.append(dict(kind="zero", file=f, pos=pos, len=16))
+            else:
+                muts.append(dict(kind="zero", file=f, pos=rng.randrange(size), len=rng.choice([4, 16, 64])))
+            continue
+        bounds = block_bounds(os.path.join(base, "db", f))
+        zs, sw = [], []
+        for (a, b) in bounds:
+            # the trailer (checksum type + checksum) and some of the data in front of it
+            for back in (12, 13, 16, 20, 32, b - a):
+                zs.append(dict(kind="zero", file=f, pos=max(a, b - back), len=min(back, b - a)))
+            zs.append(dict(kind="zero", file=f, pos=a, len=max(1, (b - a) // 2)))
+        for i, x in enumerate(bounds):
+            for j, y in enumerate(bounds):
+                if i != j and x[1] - x[0] == y[1] - y[0]:
+                    sw.append(dict(kind="swap", file=f, src=list(x), dst=list(y)))
+        if tier != "thorough":
+            zs = rng.sample(zs, min(len(zs), 6))
+            sw = rng.sample(sw, min(len(sw), 3))
+        muts += zs + sw
+    return muts
+
+
+def gen_mutations(rng, files, tier, base=None):
+    muts = structured_mutations(rng, files, base, tier) if base else []
     if tier == "thorough":
         for f, size in files:
             for pos in range(size):
@@ -151,7 +219,7 @@ def gen_mutations(rng, files, tier):
             for ln in range(0, size):
                 muts.append(dict(kind="trunc", file=f, len=ln))
         return muts, True
-    for _ in range(420):
+    for _ in range(1200):
         f, size = rng.choice(files)
         k = rng.random()
         if k < 0.6:
@@ -189,9 +257,10 @@ def run(tier, seed):
     os.makedirs(base)
     try:
         ref, files = build_pristine(base)
-        muts, exhaustive = gen_mutations(rng, files, tier)
+        muts, exhaustive = gen_mutations(rng, files, tier, base)
         rep.rule = ("mutations of the .col/.idx files of a CRC32 database (2 tables, 5 row-sets, 64-byte blocks): single-bit flips, "
-                    "byte overwrites, truncations; thorough enumerates every bit of every file; per mutation 3 reads of every "
+                    "byte overwrites, truncations, zeroed ranges (incl. block trailers with the data in front of them) and misdirected "
+                    "block writes (a block replaced by another, self-consistent block of the same file); thorough enumerates every bit of every file; per mutation 3 reads of every "
                     "table, a compaction pass, a 4th read; distinct non-trivial = distinct mutations after which the database "
                     "opened and at least one read was judged")
         outcomes = {}
@@ -216,6 +285,10 @@ def run(tier, seed):
             for v in res["violations"]:
                 rep.add_violation(Violation(v["signature"], v["what"], dict(m=res["m"])))
         run_sentinels(rep, sentinel)
+        kinds = {}
+        for m in muts:
+            kinds[m["kind"]] = kinds.get(m["kind"], 0) + 1
+        rep.coverage.update(mutations_by_kind=kinds)
         rep.coverage.update(files=[f for f, _ in files], file_bytes=sum(s for _, s in files), outcomes=outcomes,
                             exhaustive=exhaustive, open_failures_by_file_type=open_failed)
         rep.floor("mutations after which reads were judged", len(rep.distinct), len(muts) // 3)
